@@ -189,8 +189,9 @@ def decode_module(sel, cur, mod: str = "m", swap: bool = False) -> Built:
         elif k == 2:
             nm = f"C{i}"
             cq, cid = f"{MQ}.{nm}", f"{MID}/{nm}"
-            # superclass list (quick: none / (ValueError, Base0) / (Base0, ValueError); thorough also the single ones)
-            sup = [(), ("ValueError", "Base0"), ("Base0", "ValueError"), ("ValueError",), ("Base0",)][rd(sel, cur, 5 if THOROUGH else 3)]
+            nmem = rd(sel, cur, (MAX_MEMBERS if THOROUGH or ntop == 1 else 1) + 1)
+            # superclass list (quick: only for classes with an empty body: none / (ValueError, Base0) / (Base0, ValueError); thorough also the single ones)
+            sup = [(), ("ValueError", "Base0"), ("Base0", "ValueError"), ("ValueError",), ("Base0",)][rd(sel, cur, 5 if THOROUGH else (3 if nmem == 0 else 1))]
             bases = []
             for sname in sup:
                 if sname == "ValueError":
@@ -202,7 +203,6 @@ def decode_module(sel, cur, mod: str = "m", swap: bool = False) -> Built:
             sup_q = [("builtins.ValueError" if x == "ValueError" else f"{MQ}.Base0") for x in sup]
             b.expect.append({"kind": "class", "id": cid, "owner": MID, "name": nm, "superclasses": sup_q,
                              "exception": "ValueError" in sup})
-            nmem = rd(sel, cur, (MAX_MEMBERS if THOROUGH or ntop == 1 else 1) + 1)
             body, blines, defined = [], [], []
             for j in range(nmem):
                 mk = rd(sel, cur, N_MEMBER)
